@@ -3,6 +3,7 @@
 Ranges come from: constants, enum discriminants (ADT facts), integer parameter types, casts, masks, intrinsic results,
 loads from constant statics (value set of the table column), return types of opaque callees, and the path conditions
 already passed (comparisons with constants refine the compared term).  No widening, no fixpoint."""
+import re
 from . import terms as T
 from .facts import AnchorError
 
@@ -188,6 +189,11 @@ class Ranges:
                 return (0, 63) if a is not None and a[0] == "nonzero" else (0, 64)
             if "count_ones" in name:
                 return (0, 64)
+            if "NonZero" in name and T.strip_turbofish(name).endswith("::get"):
+                # the value of a NonZero is at least 1 (type invariant)
+                m_ = re.search(r"NonZero::?<([ui](?:8|16|32|64|128|size))>", name)
+                hi_ = INT_RANGES.get(m_.group(1) if m_ else "u64", (0, 2 ** 64 - 1))[1]
+                return (1, hi_)
             rt = self.ret_type(name)
             if rt in INT_RANGES:
                 return INT_RANGES[rt]
